@@ -200,9 +200,8 @@ func ReportUnresolved(logStream, dbStream io.Reader, ruc ReportUnresolvedConfig)
 	return utils.WithResolvedDatabase(dbStream, ruc.ParserConfig, ruc.ResolverConfig,
 		func(nl shared.DBNodeMap) error {
 			r := NewUnsolvedReporter(ruc.ReporterConfig, nl)
-			defer r.Flush()
 			f := filter.GetIntervalNodeFilter(ruc.FilterConfig)
-			return utils.WalkNodesInStream(logStream, ruc.DateFormat, ruc.ParserConfig, f, r)
+			return utils.FinishReport(r, utils.WalkNodesInStream(logStream, ruc.DateFormat, ruc.ParserConfig, f, r))
 		})
 }
 
@@ -217,9 +216,8 @@ type ReportQuantityConfig struct {
 // ReportQuantity Generates a quantity report
 func ReportQuantity(logStream io.Reader, rqc ReportQuantityConfig) error {
 	r := NewQuantityReporter(rqc.ReporterConfig, rqc.Descending)
-	defer r.Flush()
 	f := filter.GetIntervalNodeFilter(rqc.FilterConfig)
-	return utils.WalkNodesInStream(logStream, rqc.DateFormat, rqc.ParserConfig, f, r)
+	return utils.FinishReport(r, utils.WalkNodesInStream(logStream, rqc.DateFormat, rqc.ParserConfig, f, r))
 }
 
 type ReportTotalsConfig struct {
@@ -234,8 +232,7 @@ func ReportTotals(logStream, dbStream io.Reader, rqc ReportTotalsConfig) error {
 	return utils.WithResolvedDatabase(dbStream, rqc.ParserConfig, rqc.ResolverConfig,
 		func(nl shared.DBNodeMap) error {
 			r := NewTotalReporter(rqc.ReporterConfig, nl)
-			defer r.Flush()
 			f := filter.GetIntervalNodeFilter(rqc.FilterConfig)
-			return utils.WalkNodesInStream(logStream, rqc.DateFormat, rqc.ParserConfig, f, r)
+			return utils.FinishReport(r, utils.WalkNodesInStream(logStream, rqc.DateFormat, rqc.ParserConfig, f, r))
 		})
 }
